@@ -9,3 +9,108 @@ package encrypt
 //@   ensures C09/only-known-operations: op == NoOperation || op == HmacSha256Operation || op == EncryptOperation || op == RedactOperation || op == UnknownOperation
 //@   ensures C09/case-insensitive-match: (uf("strings.ToLower", seg) == "" ==> op == NoOperation) && (uf("strings.ToLower", seg) == "hmac-sha256" ==> op == HmacSha256Operation) && (uf("strings.ToLower", seg) == "encrypt" ==> op == EncryptOperation) && (uf("strings.ToLower", seg) == "redact" ==> op == RedactOperation)
 //@   ensures C09/anything-else-is-unknown: !(uf("strings.ToLower", seg) == "" || uf("strings.ToLower", seg) == "hmac-sha256" || uf("strings.ToLower", seg) == "encrypt" || uf("strings.ToLower", seg) == "redact") ==> op == UnknownOperation
+
+// reflect.Value is abstract: uf("reflect.Type", v) is the tag of its type, ufbool("reflect.CanSet", v) etc. its observers.
+// Trace event "reflect:set" a0=target value a1=new data (string).
+//@ pure isStringValue(fv reflect.Value) bool = uf("reflect.Type", fv) == typeid("string")
+//@ pure isBytesValue(fv reflect.Value) bool = uf("reflect.Type", fv) == typeid("[]uint8")
+
+//@ func setValue(fv, newVal) (err)
+//@   assigns ev, elem:any
+//@   ensures C09/only-settable-strings-and-bytes-are-set: (err == nil) <==> (ufbool("reflect.CanSet", fv) && (isStringValue(fv) || isBytesValue(fv)))
+//@   ensures C09/exactly-one-mutation-with-the-given-data: err == nil ==> ev_n == old(ev_n) + 1 && ev_kind(old(ev_n)) == "reflect:set" && ev_a(old(ev_n), 0) == fv && ev_a(old(ev_n), 1) == newVal
+//@   ensures C09/failure-mutates-nothing: err != nil ==> ev_n == old(ev_n)
+//@   ensures C09/mutation-count: events("reflect:set") == old(events("reflect:set")) + ((err == nil) ? 1 : 0) && events("sys:psset") == old(events("sys:psset"))
+
+// ---- the classification / operation decision (C09 kernel) ----
+
+//@ functype Option(o)
+//@   closedworld
+//@   assigns options.withWrapper, options.withSalt, options.withInfo, options.withFilterOperations, options.withPointerstructureInfo, options.withIgnoreTaggable, options.withTrackedMaps
+
+//@ func getOpts(opt) (opts)
+//@   assigns elem:any
+//@   ensures C09/never-mutates: events("reflect:set") == old(events("reflect:set")) && events("sys:psset") == old(events("sys:psset"))
+//@   ensures C09/no-options-means-defaults: len(opt) == 0 ==> opts.withWrapper == nil && opts.withSalt == nil && opts.withInfo == nil && opts.withFilterOperations == nil && opts.withPointerstructureInfo == nil && !opts.withIgnoreTaggable && opts.withTrackedMaps == nil
+//@   loop 1 invariant len(opt) == 0 ==> opts.withWrapper == nil && opts.withSalt == nil && opts.withInfo == nil && opts.withFilterOperations == nil && opts.withPointerstructureInfo == nil && !opts.withIgnoreTaggable && opts.withTrackedMaps == nil
+
+//@ func DefaultFilterOperations() (m)
+//@   assigns map:map[DataClassification]FilterOperation
+//@   ensures C09/secure-defaults: m != nil && fresh(m) && (forall c DataClassification :: (c in m) == (c == PublicClassification || c == SensitiveClassification || c == SecretClassification)) && m[PublicClassification] == NoOperation && m[SensitiveClassification] == EncryptOperation && m[SecretClassification] == RedactOperation
+//@   ensures oldobjects("map:map[DataClassification]FilterOperation")
+
+//@ pure protecting(op FilterOperation) bool = op == EncryptOperation || op == HmacSha256Operation || op == RedactOperation
+
+//@ func getClassificationFromTagString(tag, opt) (info)
+//@   assigns map:map[DataClassification]FilterOperation, elem:string, elem:any
+//@   ensures C09/always-an-answer: info != nil && fresh(info)
+//@   ensures C09/known-classifications-only: len(opt) == 0 ==> info.Classification == PublicClassification || info.Classification == SensitiveClassification || info.Classification == SecretClassification || info.Classification == UnknownClassification
+//@   ensures C09/unknown-classification-has-unknown-operation-unless-overridden: len(opt) == 0 && info.Classification == UnknownClassification ==> info.Operation == UnknownOperation
+//@   ensures C09/without-overrides-no-spelling-leaves-classified-data-unprotected: len(opt) == 0 && (info.Classification == SensitiveClassification || info.Classification == SecretClassification) ==> protecting(info.Operation)
+//@   ensures C09/defaults-encrypt-sensitive-redact-secret: len(opt) == 0 && uf("strings.SplitN", tag, ",") == 1 ==> (uf("strings.Split", tag, ",", 0) == "sensitive" ==> info.Classification == SensitiveClassification && info.Operation == EncryptOperation) && (uf("strings.Split", tag, ",", 0) == "secret" ==> info.Classification == SecretClassification && info.Operation == RedactOperation) && (uf("strings.Split", tag, ",", 0) == "public" ==> info.Classification == PublicClassification && info.Operation == NoOperation)
+//@   ensures C09/public-is-never-filtered-by-default: len(opt) == 0 && info.Classification == PublicClassification ==> info.Operation == NoOperation
+
+// ---- filtering one value (C09, C10 kernel) ----
+// "protected" below means: exactly one mutation of the target, recorded as trace event reflect:set (direct) or
+// call of pointerstructure.Set (tagged map value), with data produced by the configured operation.
+
+//@ type Filter guarded_by l: Wrapper, HmacSalt, HmacInfo, FilterOperationOverrides
+
+//@ iface wrapping.Wrapper.Encrypt(ctx, data, opt) (blob, err)
+//@   assigns ctxdone
+
+//@ pure nilValue() reflect.Value = uf("reflect.ValueOf", 0, 0)
+//@ pure derefSlice(v reflect.Value) reflect.Value = (uf("reflect.Kind", v) == 22 && !ufbool("reflect.IsNil", v)) ? uf("reflect.Elem", v) : v
+
+//@ func (*Filter).filterValue(ctx, fv, classificationTag, opt) (err)
+//@   requires ef != nil && held(ef.l) == 0
+//@   assigns ev, ctxdone, elem:any, elem:uint8, held, lockacq
+//@   ensures C09/missing-tag-is-an-error: classificationTag == nil ==> err != nil && ev_n == old(ev_n)
+//@   ensures C09/public-and-explicit-no-operation-are-left-alone: classificationTag != nil && (classificationTag.Classification == PublicClassification || classificationTag.Operation == NoOperation) ==> err == nil && ev_n == old(ev_n)
+//@   ensures C09/failure-mutates-nothing: err != nil ==> events("reflect:set") == old(events("reflect:set")) && (events("sys:psset") == old(events("sys:psset")) || (ev_kind(ev_n - 1) == "sys:psset" && ev_a(ev_n - 1, 7) != 0))
+//@   ensures not-recursive: callsTo("(*Filter).filterValue") == old(callsTo("(*Filter).filterValue"))
+//@   ensures C09/at-most-one-mutation: events("reflect:set") + events("sys:psset") <= old(events("reflect:set")) + old(events("sys:psset")) + 1
+//@   ensures C09/nil-only-if-protected-or-nothing-to-protect: err == nil && len(opt) == 0 && classificationTag != nil && !(classificationTag.Classification == PublicClassification || classificationTag.Operation == NoOperation) && fv != nilValue() && ufbool("reflect.CanSet", strOrSelf(fv)) && !(isBytesValue(strOrSelf(fv)) && ufbool("reflect.IsNil", strOrSelf(fv))) ==> events("reflect:set") == old(events("reflect:set")) + 1
+//@   ensures C09/unsettable-classified-value-is-not-forwarded-in-clear: len(opt) == 0 && classificationTag != nil && !(classificationTag.Classification == PublicClassification || classificationTag.Operation == NoOperation) && fv != nilValue() && (isStringValue(strOrSelf(fv)) || isBytesValue(strOrSelf(fv))) && !ufbool("reflect.CanSet", strOrSelf(fv)) ==> err != nil
+//@   ensures C09/redaction-writes-the-marker: err == nil && len(opt) == 0 && classificationTag != nil && classificationTag.Classification != PublicClassification && (classificationTag.Operation == RedactOperation || !(classificationTag.Classification == SecretClassification || classificationTag.Classification == SensitiveClassification)) && events("reflect:set") == old(events("reflect:set")) + 1 ==> ev_kind(ev_n - 1) == "reflect:set" && ev_a(ev_n - 1, 1) == "[REDACTED]"
+//@   ensures unlocked: held(ef.l) == 0
+
+//@ pure strOrSelf(fv reflect.Value) reflect.Value = (uf("reflect.Kind", fv) == 22 && uf("reflect.Kind", uf("reflect.Elem", fv)) == 24) ? uf("reflect.Elem", fv) : fv
+
+//@ func (*Filter).filterSlice(ctx, classificationTag, slice, opt) (err)
+//@   requires ef != nil && held(ef.l) == 0
+//@   assigns ev, ctxdone, elem:any, elem:uint8, held, lockacq
+//@   ensures C09/missing-tag-is-an-error: classificationTag == nil ==> err != nil && ev_n == old(ev_n)
+//@   ensures C09/public-slices-are-left-alone: classificationTag != nil && classificationTag.Classification == PublicClassification ==> err == nil && ev_n == old(ev_n)
+//@   ensures C09/every-element-is-filtered-or-the-call-fails: err == nil && classificationTag != nil && classificationTag.Classification != PublicClassification && slice != nilValue() ==> callsTo("(*Filter).filterValue") == old(callsTo("(*Filter).filterValue")) + uf("reflect.Len", derefSlice(slice))
+//@   ensures C09/first-failing-element-fails-the-call: callsTo("(*Filter).filterValue") >= old(callsTo("(*Filter).filterValue"))
+//@   loop 1 invariant held(ef.l) == 0 && 0 <= i && callsTo("(*Filter).filterValue") == old(callsTo("(*Filter).filterValue")) + i && classificationTag != nil && classificationTag.Classification != PublicClassification && old(slice) != nilValue() && slice == derefSlice(old(slice)) && i <= uf("reflect.Len", slice)
+
+// ---- cryptographic operations (C16 kernel): results are uninterpreted functions of key material and data ----
+// Trace events: "call:wrapping.Wrapper.Encrypt" a0=wrapper a3=array of the plaintext; a5=blob a6/a7=error.
+
+//@ func NewDerivedReader(ctx, wrapper, lenLimit, salt, info) (reader, err)
+//@   trusted
+//@   assigns nothing
+//@   ensures C16/needs-a-wrapper-and-a-sane-limit: (wrapper == nil || lenLimit < 20) ==> err != nil
+//@   ensures C16/reader-is-a-function-of-key-salt-and-info: err == nil ==> reader != nil && ref(reader) == uf("hkdf", valof(wrapper), content(salt), content(info))
+
+//@ func (*Filter).encrypt(ctx, data, opt) (out, err)
+//@   requires ef != nil && held(ef.l) == 0
+//@   assigns ev, ctxdone, elem:any, held, lockacq
+//@   ensures C16/missing-data-or-wrapper-is-an-error: (data == nil || (len(opt) == 0 && ef.Wrapper == nil)) ==> err != nil && out == ""
+//@   ensures C16/encrypts-under-the-filters-wrapper-read-under-its-lock: err == nil && len(opt) == 0 ==> calls("wrapping.Wrapper.Encrypt") == old(calls("wrapping.Wrapper.Encrypt")) + 1 && ev_kind(ev_n - 1) == "call:wrapping.Wrapper.Encrypt" && ev_a(ev_n - 1, 0) == valof(ef.Wrapper) && ev_a(ev_n - 1, 3) == arr(data)
+//@   ensures C16/failure-yields-no-ciphertext: err != nil ==> out == ""
+//@   ensures C16+C19/single-critical-section: data != nil ==> acquisitions(ef.l) == old(acquisitions(ef.l)) + 1
+//@   ensures C09/never-mutates: events("reflect:set") == old(events("reflect:set")) && events("sys:psset") == old(events("sys:psset"))
+//@   ensures unlocked: held(ef.l) == 0
+
+//@ func (*Filter).hmacSha256(ctx, data, opt) (out, err)
+//@   requires ef != nil && held(ef.l) == 0
+//@   assigns ev, ctxdone, elem:any, elem:uint8, held, lockacq
+//@   ensures C16/missing-data-or-wrapper-is-an-error: (data == nil || (len(opt) == 0 && ef.Wrapper == nil)) ==> err != nil && out == ""
+//@   ensures C16/failure-yields-no-digest: err != nil ==> out == ""
+//@   ensures C16+C19/single-critical-section: data != nil ==> acquisitions(ef.l) == old(acquisitions(ef.l)) + 1
+//@   ensures C09/never-mutates: events("reflect:set") == old(events("reflect:set")) && events("sys:psset") == old(events("sys:psset"))
+//@   ensures unlocked: held(ef.l) == 0
+//@   atcall NewDerivedReader#1 C16/derives-the-key-from-the-salt-and-info-in-force: held(ef.l) == 2 && (len(opt) == 0 ==> w == ef.Wrapper && len(salt) == len(ef.HmacSalt) && len(info) == len(ef.HmacInfo) && (forall k int :: 0 <= k && k < len(salt) ==> salt[k] == ef.HmacSalt[k]) && (forall k int :: 0 <= k && k < len(info) ==> info[k] == ef.HmacInfo[k]))
